@@ -31,6 +31,7 @@ fn configure<B: Builder>(b: &mut B, opts: &[&str]) {
             "fgv" => { let c = rgba(v); b.module_color(c.to_vec()); }
             "bgv" => { let c = rgba(v); b.background_color(&c[..]); }
             "bgv3" => { let c = rgba(v); b.background_color(&c[..3]); }
+            "fgv3" => { let c = rgba(v); b.module_color(&c[..3]); }
             "fgs" => { let st = String::from_utf8(unhex(v.split_once(':').unwrap().0)).unwrap(); b.module_color(st.as_str()); }
             "bgs" => { let st = String::from_utf8(unhex(v.split_once(':').unwrap().0)).unwrap(); b.background_color(st); }
             "shape" => { b.shape(SHAPES[v.parse::<usize>().unwrap()]); }
@@ -105,6 +106,7 @@ pub fn run_case(a: &[&str]) -> String {
                     "fgv" => fg = rgba(v),
                     "bgv" => bg = rgba(v),
                     "bgv3" => { let c = rgba(v); bg = [c[0], c[1], c[2], 255]; }
+                    "fgv3" => { let c = rgba(v); fg = [c[0], c[1], c[2], 255]; }
                     "fgs" => fg = rgba(v.split_once(':').unwrap().1),
                     "bgs" => bg = rgba(v.split_once(':').unwrap().1),
                     "fitw" => { b.fit_width(v.parse().unwrap()); }
